@@ -169,6 +169,83 @@ def check_run(chk, cfg, mode, lines, keep):
                          f"step {t + 1} resampled differently: ratios {rr[:t + 1]} vs {rec['ratio'][:t + 1]}", {**sig, "clause": "noise"})
 
 
+def verify_history(chk, case, res, sig, what):
+    """every per-step ratio recomputed from the recorded (pre-resampling) populations and temperatures, and the final sum"""
+    rec = c06.record_run(res)
+    betas = [0.0] + rec["beta"]
+    if len(rec["pops"]) != len(rec["beta"]) + 1:
+        chk.fail("each step enters the sum once", case, f"{what}: {len(rec['pops'])} stored populations for {len(rec['beta'])} iterations", {**sig, "clause": "once", "scenario": what})
+        return
+    for t in range(len(rec["beta"])):
+        pop = rec["pops"][t]
+        r_, v_, _, _ = c18.ref_step(pop, betas[t], betas[t + 1])
+        fin = pop["ll"][np.isfinite(pop["ll"])]
+        scale = abs(betas[t + 1] - betas[t]) * float((np.max(np.abs(fin)) if len(fin) else 0.0) + 10) + 1
+        if not core.close(rec["ratio"][t], r_, 0, 1e-9 * scale):
+            chk.fail("per-step ratio = log mean incremental weight of the pre-resampling population", case,
+                     f"{what}: iteration {t + 1}: recorded {rec['ratio'][t]!r}, recomputed from the recorded population {r_!r}", {**sig, "clause": "ratio", "scenario": what})
+            return
+    z = rec["final"]["logZ"]
+    if not core.close(z, math.fsum(rec["ratio"]), 1e-12, 1e-12):
+        chk.fail("evidence = sum of the recorded ratios", case, f"{what}: {z!r} vs {math.fsum(rec['ratio'])!r}", {**sig, "clause": "sum", "scenario": what})
+
+
+def check_special_runs(chk, quick):
+    """(a) a proposal that puts mass outside the prior support (the initial draw rejects and redraws): the evidence is still the sum of
+    the recorded ratios, on a fresh run and on a resumed one; (b) a run interrupted by Ctrl-C INSIDE the mutation step of an iteration and
+    resumed from whatever the dying run left behind (`last_checkpoint_bytes`, `last_checkpoint_state`): every ratio of the finished run is
+    the one recomputed from the recorded populations"""
+    for j in range(4 if quick else 16):
+        cfg = {"seed": 400 + j, "dims": 2, "n_samples": 16, "kernel_steps": 2, "like_center": 0.4, "like_width": 0.5, "half": 2.0,
+               "prop_mu": 0.0, "prop_sigma": float((2.5, 4.0)[j % 2]), "checkpoint_every": 1, "ns": ("numpy", "torch", "jax")[j % 3], "width": "f64"}
+        sig = {"sampler": "minipcn_smc"}
+        case = {"cfg": cfg, "mode": "leaking_proposal"}
+        chk.count("special:leaking_proposal")
+        chk.case(None, json.dumps(case))
+        res = smcrun.run_smc(cfg, record_checkpoints=True)
+        if res["status"] != "done":
+            chk.count("aborted:" + type(res.get("exc")).__name__)
+            continue
+        verify_history(chk, case, res, sig, "proposal leaking outside the prior support")
+        if res["ckpts"]:
+            r2 = smcrun.resume_smc(cfg, res["ckpts"][0]["bytes"])
+            if r2["status"] == "done":
+                verify_history(chk, dict(case, resumed_from_first_checkpoint=True), r2, sig, "leaking proposal, resumed on a fresh sampler")
+                if float(r2["samples"].log_evidence) != float(res["samples"].log_evidence):
+                    chk.fail("estimate does not depend on checkpointing", case,
+                             f"leaking proposal: resumed {float(r2['samples'].log_evidence)!r} vs uninterrupted {float(res['samples'].log_evidence)!r}", {**sig, "clause": "resumed", "route": "bytes"})
+    for j in range(6 if quick else 24):
+        cfg = {"seed": 500 + j, "dims": 2, "n_samples": 12, "kernel_steps": 3, "like_width": float((0.3, 0.6)[j % 2]), "checkpoint_every": (1, 2, 3)[j % 3],
+               "fault_kind": ("interrupt", "exception")[j % 4 == 3]}
+        sig = {"sampler": "minipcn_smc"}
+        ref = smcrun.run_smc(cfg, record_checkpoints=True)
+        if ref["status"] != "done" or ref["target"].n_like < 6:
+            continue
+        its = len(ref["sampler"].history.beta)
+        # likelihood calls of one iteration happen inside the kernel: pick a call in the middle of iteration 2 (or later)
+        k = int(ref["target"].n_like * (0.35 + 0.1 * (j % 5)))
+        r1 = smcrun.run_smc(cfg, fault_at=k, record_checkpoints=True)
+        if r1["status"] != "fault":
+            continue
+        s1 = r1["sampler"]
+        for route in ("bytes", "dict"):
+            src = s1.last_checkpoint_bytes if route == "bytes" else s1.last_checkpoint_state
+            case = {"cfg": cfg, "mode": "interrupted_in_kernel", "fault_at_likelihood_call": k, "route": route, "iterations_uninterrupted": its}
+            chk.count("special:interrupted_in_kernel")
+            chk.case(None, json.dumps(case))
+            if src is None:
+                continue
+            r2 = smcrun.resume_smc(cfg, src)
+            if r2["status"] != "done":
+                chk.fail("run total", case, repr(r2.get("exc"))[:200], {**sig, "clause": "raise"})
+                continue
+            verify_history(chk, case, r2, sig, f"interrupted ({cfg['fault_kind']}) inside the kernel, resumed from what the run left behind ({route})")
+            if float(r2["samples"].log_evidence) != float(ref["samples"].log_evidence):
+                chk.fail("estimate does not depend on checkpointing", case,
+                         f"interrupted inside the kernel at likelihood call {k} and resumed: {float(r2['samples'].log_evidence)!r} vs uninterrupted {float(ref['samples'].log_evidence)!r}",
+                         {**sig, "clause": "resumed", "route": route})
+
+
 def run(chk: core.Check):
     r = np.random.default_rng(chk.seed + 8008)
     quick = chk.tier == "quick"
@@ -181,6 +258,7 @@ def run(chk: core.Check):
     for i in range(24 if quick else 400):
         cfg, mode = gen_cfg(r, i)
         check_run(chk, cfg, mode, lines, keep)
+    check_special_runs(chk, quick)
     # a numeric regime of its own: the proposal is (almost) exactly the posterior, so every incremental weight is the same to a relative
     # spread of 1e-5 .. 1e-7 and the run is one jump 0 -> 1; the per-step variance is then tiny, and it is still the variance of THESE weights
     # (to the accuracy a two-pass variance has: eps / spread)
